@@ -99,7 +99,7 @@ def gen_case(rng):
         e, ops = elem(rng, regs, SR, N, chans, kinds)
         prog += [("SNew", outer), ("SSetSR", outer, SR)] + ops + [("SAddElement", outer, 1, e), ("SAddSub", outer, 2, t0),
                                                                   ("SAddSub", s, npos + 1, outer), ("OSLen", s)]
-        prog += [("SNew", wrong), ("SSetSR", wrong, SR * 2), ("SAddSub", s, npos + 1, wrong), ("OSLen", s)]
+        prog += [("SNew", wrong), ("SSetSR", wrong, rng.choice([SR * 2, SR / 2, SR * (1 + 2e-6), SR * (1 - 1e-9)])), ("SAddSub", s, npos + 1, wrong), ("OSLen", s)]
     for d in (False, True):
         for f in (False, True):
             for t in (False, True):
